@@ -210,6 +210,7 @@ C11_OBS = C11_CAPI + [o for o in C14_OPS if o["id"] in ("O14.5.base", "O14.5.nob
 
 WALK_STUBS = ["syscalls::openat_follow", "syscalls::statx", "syscalls::readlinkat", "FdExt>::metadata", "try_clone_to_owned"]
 O_WALK_PLAIN = ob("O7.4a", RP + "rprocfs_walk_one_component_plain", "opath_resolve (emulated procfs walk), one component of <= L symbolic bytes that is NOT a symlink, every non-creation flag word, arbitrary kernel: '..' => EXDEV with nothing opened; opens are O_NOFOLLOW single components; each descriptor is statx-checked before use/return", stubs=WALK_STUBS, covers_may_be_unsat=["ELOOP", "link body read"], tiers=("thorough",), timeout={"thorough": 4500}, cost=9)
+O_WALK_SLASH = ob("O7.4c", RP + "rprocfs_walk_trailing_slash", "opath_resolve on 'x/' (x not a symlink): the empty trailing component is looked up as '.' relative to x (so a non-directory fails as with the kernel), never dropped", stubs=WALK_STUBS, covers_may_be_unsat=["ELOOP", "link body read"], tiers=("thorough",), timeout={"thorough": 5400}, cost=10)
 O_WALK_SYMLINK = ob("O7.4b", RP + "rprocfs_walk_one_component_symlink", "same, the component IS a symlink with body in {y, /y, ../y, ..}: absolute body => ELOOP, '..' in a body => EXDEV, the link descriptor is mount-checked BEFORE its body is read, the spliced component is walked the same way", stubs=WALK_STUBS, tiers=("thorough",), timeout={"thorough": 5400}, cost=10)
 
 PROPERTIES = {
@@ -262,7 +263,7 @@ PROPERTIES = {
         "explanation": "C07 (partial): the creation-flag refusal of both procfs resolvers is decided for every 32-bit flag word; ProcfsHandle::open's forced O_NOFOLLOW for every flag word (O6.4a); the kernel resolver's fixed confinement mask.",
         "outside": "the emulated procfs walk itself ('..', absolute links, final-component table) and equality of outcomes between the two resolvers on a live /proc: the walk (opath_resolve) is a heap-container loop this engine does not finish (DESIGN §1.2)",
         "assumptions": ["opath_resolve replaced by a recording stub in the dispatch harnesses"],
-        "obligations": [O_RP_CREAT_O2, O_RP_CREAT_OP, O_RP_MASK, O_RP_DISPATCH, O_WALK_PLAIN, O_WALK_SYMLINK, O_OPEN_OKPATH, O_OPEN_UNMASKED, O_OF_LINK, O_OF_NOTLINK],
+        "obligations": [O_RP_CREAT_O2, O_RP_CREAT_OP, O_RP_MASK, O_RP_DISPATCH, O_WALK_PLAIN, O_WALK_SYMLINK, O_WALK_SLASH, O_OPEN_OKPATH, O_OPEN_UNMASKED, O_OF_LINK, O_OF_NOTLINK],
     },
     "C15": {
         "explanation": "C15: may_follow_link is executed with the two fstat answers, geteuid and the cached sysctl all symbolic at full width; the oracle is a transcription of fs/namei.c:may_follow_link.",
